@@ -28,6 +28,17 @@ type AttackCase struct {
 	Encoded  string           `json:"encoded"`
 	Notes    []string         `json:"notes"`
 	NonAsrtE bool             `json:"nonAssertionEncrypted"`
+
+	spFn func() *saml2.SAMLServiceProvider // not serialised: a long-lived instance for the sequence checks
+}
+
+// newSP returns the service provider an entry point is called on: a fresh one unless a sequence check
+// installed a long-lived instance.
+func (c *AttackCase) newSP() *saml2.SAMLServiceProvider {
+	if c.spFn != nil {
+		return c.spFn()
+	}
+	return c.SP.Build()
 }
 
 type attackOpts struct {
@@ -300,7 +311,7 @@ func (c *AttackCase) judgeSSO(o *h.Outcome) *h.Violation {
 		}
 		return nil
 	}
-	resp, err := c.SP.Build().ValidateEncodedResponse(c.Encoded)
+	resp, err := c.newSP().ValidateEncodedResponse(c.Encoded)
 	if (resp == nil) == (err == nil) {
 		return h.V("result-xor-error", "ValidateEncodedResponse returned result nil=%v and err=%v", resp == nil, err)
 	}
@@ -312,7 +323,7 @@ func (c *AttackCase) judgeSSO(o *h.Outcome) *h.Violation {
 	} else {
 		o.Classes = append(o.Classes, "sso:rejected:"+rejectStage(err))
 	}
-	info, err2 := c.SP.Build().RetrieveAssertionInfo(c.Encoded)
+	info, err2 := c.newSP().RetrieveAssertionInfo(c.Encoded)
 	if (info == nil) == (err2 == nil) {
 		return h.V("result-xor-error", "RetrieveAssertionInfo returned result nil=%v and err=%v", info == nil, err2)
 	}
@@ -336,8 +347,13 @@ func (c *AttackCase) judgeSSO(o *h.Outcome) *h.Violation {
 		if info.NameID != f.NameID || info.SessionIndex != f.SessionIndex {
 			return h.V("info-not-projection", "AssertionInfo NameID/SessionIndex (%q,%q) are not those of the first returned assertion (%q,%q)", info.NameID, info.SessionIndex, f.NameID, f.SessionIndex)
 		}
+		nameCount := map[string]int{}
 		for _, at := range f.Attrs {
-			if len(at.Values) > 0 && info.Values.Get(at.Name) == "" && at.Values[0] != "" {
+			nameCount[at.Name]++
+		}
+		for _, at := range f.Attrs {
+			// Values is keyed by Name: with a repeated Name only one of the attributes can be reported
+			if nameCount[at.Name] == 1 && len(at.Values) > 0 && info.Values.Get(at.Name) == "" && at.Values[0] != "" {
 				return h.V("info-not-projection", "Values.Get(%q) empty but the first assertion has it", at.Name)
 			}
 		}
@@ -385,7 +401,7 @@ func (c *AttackCase) judgeLogout(o *h.Outcome) *h.Violation {
 		}
 		return false
 	}
-	req, err := c.SP.Build().ValidateEncodedLogoutRequestPOST(c.Encoded)
+	req, err := c.newSP().ValidateEncodedLogoutRequestPOST(c.Encoded)
 	if (req == nil) == (err == nil) {
 		return h.V("result-xor-error", "ValidateEncodedLogoutRequestPOST result nil=%v err=%v", req == nil, err)
 	}
@@ -408,7 +424,7 @@ func (c *AttackCase) judgeLogout(o *h.Outcome) *h.Violation {
 			return h.V("logout-flag-without-provenance/request", "LogoutRequest reported validated but no trusted-signed request equals it: %+v notes %v", v, c.Notes)
 		}
 	}
-	lr, err := c.SP.Build().ValidateEncodedLogoutResponsePOST(c.Encoded)
+	lr, err := c.newSP().ValidateEncodedLogoutResponsePOST(c.Encoded)
 	if (lr == nil) == (err == nil) {
 		return h.V("result-xor-error", "ValidateEncodedLogoutResponsePOST result nil=%v err=%v", lr == nil, err)
 	}
